@@ -321,6 +321,38 @@ pub fn long_section_case(r: &mut Rng, k: usize) -> String {
     }
 }
 
+/// A run of 15...600 comment / white-space tokens between two tokens that belong together (a name
+/// and its `(`, `=`, `:`, a keyword and its operand): every look-ahead and look-behind has to get
+/// across it.
+pub fn trivia_run_case(r: &mut Rng) -> String {
+    let n = r.pick(&[15usize, 16, 17, 31, 32, 33, 64, 100, 600]);
+    let unit = r.pick(&["/*c*/ ", "/*c*/\n", "/**/ ", "/* ; */\t"]);
+    let (head, tail) = r.pick(&[
+        ("%lbl", ": x;"),
+        ("x %lbl", ":"),
+        ("%do", " i=1 %to 2; %end;"),
+        ("%do", ";%end;"),
+        ("%local", " a b;"),
+        ("%global", " / readonly a=1;"),
+        ("%m", "(1, b=2)"),
+        ("%m(a", "=1)"),
+        ("%let a", "=1;"),
+        ("%let", " a=1;"),
+        ("%eval", "(1+1)"),
+        ("%scan(a", ",1)"),
+        ("%macro m", "(p); %mend;"),
+        ("%macro m(p", "=1); %mend;"),
+        ("data a; x=1", "; datalines;\n1\n;"),
+        ("%if 1", " %then y;"),
+        ("%put a", ";"),
+        ("%sysfunc", "(f(1))"),
+        ("%str", "(a)"),
+        ("title \"%m", "(1)\";"),
+    ]);
+    let pre = r.pick(&["", "", "a; ", "%macro q; ", "x = "]);
+    format!("{pre}{head}{}{tail}", unit.repeat(n))
+}
+
 /// A source that raises very many diagnostics before a recoverable missing symbol.
 pub fn many_errors_case(r: &mut Rng) -> String {
     let unit = r.pick(&["x = 'zz'x;\n", "%let a b;\n", "%eval 1);\n", "1e;", "0ff ", "%scan(a);\n"]);
@@ -371,6 +403,7 @@ pub fn structural_targeted(prop: &str, r: &mut Rng, corpus: &Corpus, tier: Tier)
     let base = |r: &mut Rng| super::general(r, corpus, tier).0;
     match prop {
         "C02" => match r.below(5) {
+            3 if r.chance(1, 8) => trivia_run_case(r),
             // long runs of one short construct (hundreds to thousands of repetitions)
             4 if r.chance(1, 6) => {
                 let idx = r.below(super::FAMILIES.len());
@@ -463,6 +496,7 @@ pub fn structural_targeted(prop: &str, r: &mut Rng, corpus: &Corpus, tier: Tier)
             _ => str_call_case(r),
         },
         "C09" => match r.below(12) {
+            11 if r.chance(1, 3) => trivia_run_case(r),
             3 | 4 => {
                 // line feeds inside speculative regions (comments, trivia before '(' / '=')
                 let b = if r.chance(1, 2) { speculation_case(r) } else { error_case(r, corpus) };
@@ -484,6 +518,7 @@ pub fn structural_targeted(prop: &str, r: &mut Rng, corpus: &Corpus, tier: Tier)
             _ => error_case(r, corpus),
         },
         "C10" => match r.below(5) {
+            2 if r.chance(1, 8) => trivia_run_case(r),
             4 => cascade_case(r),
             3 => deep_call_case(r),
             0 => nesting_case(r),
